@@ -112,6 +112,9 @@ type Scenario struct {
 	// is served (synchronously at the start of the given invocation, when the
 	// serve loop does not hold the output lock; At < 0: before Serve starts).
 	AppSends []AppSend `json:"app_sends,omitempty"`
+	// Conc, when set, turns the case into a concurrent scenario in which the
+	// application uses the session while it is served (see conc.go).
+	Conc *Conc `json:"conc,omitempty"`
 	// Collision, when set, turns the case into the concurrent id-collision
 	// scenario (Input and Programs then describe the colliding request and the
 	// sentinel).
@@ -480,6 +483,10 @@ func gen(r *rand.Rand) Scenario {
 		genCollision(r, &sc, o.NS())
 		return sc
 	}
+	if r.Intn(120) == 0 && !sc.WS && sc.Mode != "serve-nil" {
+		genConc(r, &sc, o.NS())
+		return sc
+	}
 	n := 1 + r.Intn(4)
 	if r.Intn(2) == 0 {
 		n = 1
@@ -581,6 +588,9 @@ type runState struct {
 	invoked  []bool // per element: the serve loop handed it to the handler
 	extra    int    // byKey: invocations for elements that are not in exp
 	appSent  []appSent
+	onWrite  func() // concurrent scenarios: called before every write of a program
+	onReturn func() // and when a program returns
+	onInvoke func() // and when the serve loop hands an element to the handler
 	input    string
 }
 
@@ -862,7 +872,13 @@ func (st *runState) exec(rw xmlstream.TokenReadEncoder) error {
 	reqID := n.Attr("id")
 	reqFrom := n.Attr("from")
 	readN(rw, p.ReadBefore)
+	if st.onReturn != nil {
+		defer st.onReturn()
+	}
 	for _, w := range p.Writes {
+		if st.onWrite != nil {
+			st.onWrite()
+		}
 		m := st.marker()
 		toks, reply, ambig := st.build(w, reqID, reqFrom, m)
 		toks = st.withXMLNS(toks, w)
@@ -1032,7 +1048,7 @@ func build(c *core.Case, sc Scenario) (p *sess.Pair, st *runState, outer xmpp.Ha
 		return nil, nil, nil, false
 	}
 	st = &runState{sc: sc, o: o, exp: ref.Elems, cur: -1, rets: make([]string, len(sc.Programs)),
-		invoked: make([]bool, len(sc.Programs)), byKey: sc.Collision != nil, input: input}
+		invoked: make([]bool, len(sc.Programs)), byKey: sc.Collision != nil || sc.Conc != nil, input: input}
 
 	prog := xmpp.HandlerFunc(func(rw xmlstream.TokenReadEncoder, start *xml.StartElement) error {
 		return st.exec(rw)
@@ -1108,6 +1124,9 @@ func build(c *core.Case, sc Scenario) (p *sess.Pair, st *runState, outer xmpp.Ha
 	outer = xmpp.HandlerFunc(func(rw xmlstream.TokenReadEncoder, start *xml.StartElement) error {
 		if !st.byKey {
 			st.appSends(p.S, st.cur+1)
+		}
+		if st.onInvoke != nil {
+			st.onInvoke()
 		}
 		if st.byKey {
 			for i, n := range st.exp {
@@ -1226,6 +1245,10 @@ func Run(c *core.Case, sc Scenario) {
 		runCollision(c, sc)
 		return
 	}
+	if sc.Conc != nil {
+		runConc(c, sc)
+		return
+	}
 	p, st, outer, ok := build(c, sc)
 	if !ok {
 		return
@@ -1339,8 +1362,8 @@ func judge(c *core.Case, sc Scenario, o sess.Opts, st *runState, written []byte,
 			lastInvoked = i
 		}
 	}
-	if sc.Collision != nil {
-		lastInvoked = len(st.exp) - 1 // the barrier showed that the serve loop read them all
+	if sc.Collision != nil || sc.Conc != nil {
+		lastInvoked = len(st.exp) - 1 // the serve loop was given them all (barrier / whole input with closing tag)
 	}
 	if sc.Mode == "serve-nil" {
 		// no handler to tell which elements were read: when Serve ended without an
@@ -1393,6 +1416,11 @@ func judge(c *core.Case, sc Scenario, o sess.Opts, st *runState, written []byte,
 			continue
 		}
 		exempt := serveErr != nil && i == lastInvoked
+		if sc.Conc != nil {
+			// the programs of these scenarios never fail and the input is valid:
+			// nothing entitles Serve to end while handling a request
+			exempt = false
+		}
 		// library-added elements that answer this element (by id)
 		var added []*xmltree.Node
 		if cl.ID != "" {
@@ -1497,6 +1525,8 @@ func judge(c *core.Case, sc Scenario, o sess.Opts, st *runState, written []byte,
 					return "abandoned-element"
 				case sc.Collision != nil:
 					return "id-collision"
+				case sc.Conc != nil:
+					return "concurrent-" + sc.Conc.Kind
 				case st.rets[i] == "wrap-eof":
 					return "handler-wrapped-eof"
 				case st.rets[i] == "eof":
@@ -1841,6 +1871,8 @@ func Prop() *core.Prop {
 			"collision_cases", "collision_barrier_reached", "collision_own_request_on_wire", "collision_request_reached_handler", "collision_requester_got_response",
 			"collision_via_SendIQ", "collision_via_SendIQElement", "collision_via_UnmarshalIQ", "collision_via_SendMessage", "collision_via_SendPresence",
 			"mux_via_nested_mux-reg", "mux_via_nested_mux-unreg", "mux_via_getters_mux-reg", "mux_via_getters_mux-unreg", "getters_unregistered_iq_reply_left_alone",
+			"conc_own-request", "conc_parked-send", "conc_stalled-reply", "conc_own_response_read_to_the_end", "conc_requests_judged",
+			"conc_stalled_reply_write_was_blocked",
 			"session_websocket", "ws_answered_by_library", "mode_serve-nil", "serve_nil_answered_by_library",
 			"handler_reply_with_xmlns_attr_first", "handler_reply_with_xmlns_attr_middle", "handler_reply_with_xmlns_attr_last", "handler_element_from_xml_decoder",
 			"app_sends", "app_send_unbalanced-eof", "app_send_reader-error", "app_send_balanced", "request_after_unbalanced_app_send",
